@@ -712,6 +712,9 @@ impl Server for GitSyncServer {
         history_segment: HistorySegment,
     ) -> Result<(AddVersionResult, SnapshotUrgency)> {
         self.recover()?;
+        // The working tree may have moved since the meta file was last read: the snapshot
+        // methods and the cleanup reset it to the remote. Decide on what is on disk now.
+        self.read_meta()?;
         // Accept any parent when the repo is empty (latest == NIL).
         // Otherwise check if parent matches latest. If it doesn't, reset_to_remote and recheck.
         if self.meta.latest_version != Uuid::nil() && parent_version_id != self.meta.latest_version
